@@ -216,7 +216,7 @@ class RtPart(Part):
                 return "0,4,%d" % horizon
             return "1"
         # clients
-        t_ack = next((op[0] for op in ops if op[1] == 30), None)
+        t_ack = next((op[0] for op in ops if op[1] in (30, 33)), None)
         t_close = next((op[0] for op in ops if op[1] == 3), None)
         for n, f in enumerate(steps):
             pings = sum(1 for c in f[1:] if c == 192)
